@@ -123,3 +123,55 @@ func (eng *Engine) scanInterior() {
 		}
 	}
 }
+
+// Effectively constant package-level variables: a variable of basic type whose only store in the loaded
+// program is `init` storing a constant (e.g. the event type strings in keyper/shutterevents/evtype) is read
+// as that constant. Packages that are not loaded with bodies cannot be seen to assign it (A-globals).
+func (eng *Engine) scanConstGlobals() {
+	eng.constGlobals = map[*ssa.Global]*ssa.Const{}
+	stores := map[*ssa.Global]int{}
+	val := map[*ssa.Global]*ssa.Const{}
+	escaped := map[*ssa.Global]bool{}
+	for fn := range ssautil.AllFunctions(eng.prog) {
+		for _, b := range fn.Blocks {
+			for _, ins := range b.Instrs {
+				if st, ok := ins.(*ssa.Store); ok {
+					if g, ok := st.Addr.(*ssa.Global); ok {
+						stores[g]++
+						if c, ok := st.Val.(*ssa.Const); ok && fn.Name() == "init" && fn.Pkg == g.Pkg {
+							val[g] = c
+						}
+						if g2, ok := st.Val.(*ssa.Global); ok {
+							escaped[g2] = true
+						}
+						continue
+					}
+				}
+				if un, ok := ins.(*ssa.UnOp); ok && un.Op == token.MUL {
+					if _, ok := un.X.(*ssa.Global); ok {
+						continue
+					}
+				}
+				for _, op := range ins.Operands(nil) {
+					if op == nil || *op == nil {
+						continue
+					}
+					if g, ok := (*op).(*ssa.Global); ok {
+						escaped[g] = true // address used other than by a direct load/store
+					}
+				}
+			}
+		}
+	}
+	for g, c := range val {
+		if stores[g] != 1 || g.Pkg == nil || !isRepoPkg(g.Pkg.Pkg.Path()) {
+			continue
+		}
+		if _, ok := g.Type().(*types.Pointer).Elem().Underlying().(*types.Basic); !ok {
+			continue
+		}
+		if !escaped[g] {
+			eng.constGlobals[g] = c
+		}
+	}
+}
